@@ -322,9 +322,11 @@ MSG_RULE = ("BFS over histories of {pub by 4 users (one with forged sender heade
             "echo} arriving through the real TopicMaster endpoint of the node hosting a channel-enabled group; the copies queued for the "
             "group's and the channel's multiplexing session are judged. obo (C02): a root session attached on behalf of a member, "
             "member with / without R x root user itself not subscribed / subscribed with / without R x publisher: served exactly like the member's own sessions")
-for _cid, _what in [("C03", "publish decision = attached AND W in want&given; a rejected publish leaves store, ids, frames and pushes untouched"),
+for _cid, _what in [("C03", "publish decision = attached AND W in want&given; a rejected publish leaves store, ids, frames and pushes untouched; "
+                            "obo: a root session attached to the group publishes as itself / on behalf of 6 kinds of author (never subscribed, member with / without W, former member, owner): accepted exactly for live subscriptions with W"),
                     ("C04", "history = stored minus hard-deleted minus own soft-deleted within [since,before), newest first, limit; deletion = exact union; deletion log exact"),
-                    ("C09", "0<=read<=recv<=last in store, cache, {get desc}, {get sub}; marks never decrease and move only by own pub/note; relay filters"),
+                    ("C09", "0<=read<=recv<=last in store, cache, {get desc}, {get sub}; marks never decrease and move only by own pub/note; relay filters; "
+                            "msg-after-reload: the same search started from a non-initial state (a member's read mark ahead of the stored received mark, topic reloaded, member attached again), depth 2 / 3"),
                     ("C02", "fan-out to exactly the attached readers (minus noecho origin), copy fields, push recipients = R and P holders")]:
     reg(Check(_cid, "model_checking", MSG_RULE + ". Oracle: " + _what,
               ["canonical schedule only", "group part: 4 users with one session each; channel part: 5 users, a reader with two sessions; sys topic not covered"],
@@ -332,6 +334,7 @@ for _cid, _what in [("C03", "publish decision = attached AND W in want&given; a 
               technique="explicit-state model checking over the real handlers against a reference model (BFS by replay)",
               engine="E2 xstate", claimed=True,
               parts=[Part("msg", SRV, "^TestVerif%sMsg$" % _cid, instr=True, gomaxprocs=16, deadline=(400, 3000))] +
+                    ([Part("msg-after-reload", SRV, "^TestVerifC09MsgRR$", instr=True, gomaxprocs=16, deadline=(300, 2400))] if _cid == "C09" else []) +
                     ([Part("p2p", SRV, "^TestVerif%sP2P$" % _cid, instr=True, gomaxprocs=16, deadline=(300, 2400))] if _cid in ("C02", "C03", "C09") else []) +
                     ([Part("chan", SRV, "^TestVerif%sChan$" % _cid, instr=True, gomaxprocs=16, deadline=(300, 2400))] if _cid in ("C02", "C03", "C09") else []) +
                     ([Part("sys", SRV, "^TestVerifC02Sys$", instr=True, gomaxprocs=16, deadline=(300, 2400)),
@@ -342,7 +345,8 @@ for _cid, _what in [("C03", "publish decision = attached AND W in want&given; a 
                       Part("suspended", SRV, "^TestVerifC03Suspended$", instr=True, gomaxprocs=16, deadline=(300, 2400)),
                       Part("sys", SRV, "^TestVerifC03Sys$", instr=True, gomaxprocs=16, deadline=(300, 2400)),
                       Part("suspend-at-load", SRV, "^TestVerifC03SuspendAtLoad$", instr=True, shards=(16, 16)),
-                      Part("acl-fault", SRV, "^TestVerifC03AclFault$", instr=True, gomaxprocs=16, deadline=(300, 2400))] if _cid == "C03" else []) +
+                      Part("acl-fault", SRV, "^TestVerifC03AclFault$", instr=True, gomaxprocs=16, deadline=(300, 2400)),
+                      Part("obo", SRV, "^TestVerifC03Obo$", instr=True)] if _cid == "C03" else []) +
                     ([Part("ranges", TYPES, "^TestVerifC04Ranges$", shards=(16, 16))] if _cid == "C04" else [])))
 
 reg(Check("C11", "model_checking",
@@ -366,7 +370,9 @@ reg(Check("C14", "model_checking",
           "request slots released, no deadlock / panic / livelock, no unprotected access; plus deleted topics stay deleted on every transition of the acl and p2p searches; acl-fault: after a request which failed "
           "on a store error a disconnecting session still ends up detached; at-end: one of 7 requests handled completely at every store-call boundary / atomic operation "
           "of a group's idle unload, of its deletion by the owner and of the deletion of a member's account; at-load: the same during the load of a group, "
-          "incl. the disconnect of the very connection whose {sub} triggered the load",
+          "incl. the disconnect of the very connection whose {sub} triggered the load; queue-full: 9 requests x every non-blocking send met while the request is "
+          "served finding its queue full (environment answer, one per execution, all positions; the session's own outbound queue excepted): request answered, "
+          "the session's next three requests answered, session gone from topics and session store after its disconnect",
           ["deviation-bounded; map iteration order fixed (sorted)", "protection of shared data is decided as lock discipline: every executed statement mentioning Session.subs / SessionStore.sessCache,lru "
            "must run with the object's lock held by the executing goroutine (exclusively for writes), Session.terminating / Topic.status only "
            "through sync/atomic; goroutine-owned topic tables and a free-running race detector pass are not covered; see DESIGN.md 9.2"],
@@ -377,7 +383,8 @@ reg(Check("C14", "model_checking",
                  Part("acl", SRV, "^TestVerifC14Acl$", instr=True, gomaxprocs=16, deadline=(300, 2400)),
                  Part("acl-fault", SRV, "^TestVerifC14AclFault$", instr=True, gomaxprocs=16, deadline=(300, 2400)),
                  Part("at-end", SRV, "^TestVerifC14AtEnd$", instr=True, shards=(16, 16), deadline=(300, 1200)),
-                 Part("at-load", SRV, "^TestVerifC14AtLoad$", instr=True, shards=(16, 16), deadline=(300, 1200))]))
+                 Part("at-load", SRV, "^TestVerifC14AtLoad$", instr=True, shards=(16, 16), deadline=(300, 1200)),
+                 Part("queue-full", SRV, "^TestVerifC14QueueFull$", instr=True, deadline=(300, 1200))]))
 
 reg(Check("C10", "model_checking",
           "pres-at-load: the partner attaching to / leaving its own 'me' handled completely at every store-call boundary and atomic operation of the user's {sub me} (with and without {get sub}), under both select preferences; convergence judged after 20 s. " 
